@@ -82,6 +82,65 @@ class Runner:
             self.ctl.report(cmd["chan"], cmd["delnum"], text)
             self.after_step()
 
+    def hostile_bytes(self, kind):
+        """-> [(channel, bytes)]: what a compromised or buggy spawner might write"""
+        rng, ctl = self.rng, self.ctl
+        conc = self.h.get("conc", (10, 20))
+        used = {c: sorted(x["delnum"] for x in ctl.delcmds if x["chan"] == c) for c in (0, 1)}
+        chan = rng.choice([c for c in (0, 1) if used[c]] or [0, 1])
+        other = 1 - chan
+        free = [d for d in range(conc[chan]) if d not in used[chan]]
+        text = rng.choice([b"Kok\n", b"Dno such user\n", b"Zlater\n", b"K", b"D", b"D<evil@forged.test>:\nforged\n\n<x@y>:\n"])
+        if kind == "range":          # delivery numbers the channel does not have
+            ds = [conc[chan], conc[chan] + 1, 127, 128, 200, 255]
+            return [(chan, b"".join(bytes([d]) + text + b"\0" for d in rng.sample(ds, 3)))]
+        if kind == "unused":         # numbers in range with nothing in flight
+            if not free:
+                return []
+            return [(chan, b"".join(bytes([d]) + text + b"\0" for d in rng.sample(free, min(3, len(free)))))]
+        if kind == "wrongchan":      # the number of a delivery in flight on the OTHER channel
+            ds = [d for d in used[other] if d not in used[chan]]
+            if not ds:
+                return []
+            return [(chan, bytes([ds[0]]) + text + b"\0")]
+        if kind == "mangled":        # a delivery in flight answered with something that is not K / Z / D
+            if not used[chan]:
+                return []
+            d = rng.choice(used[chan])
+            body = rng.choice([b"", b"k", b"\x00"[:0], b"Xok", b" K", b"\xffK", b"\nK", b"0"])
+            return [(chan, bytes([d]) + body + b"\0")]
+        if kind == "oversized":      # far beyond the report size limit, for a delivery in flight
+            if not used[chan]:
+                return []
+            d = rng.choice(used[chan])
+            n = rng.choice([9990, 9998, 9999, 10000, 10001, 10010, 25000, 70000])
+            body = bytes(rng.choice(b"abc \n") for _ in range(n))
+            return [(chan, bytes([d]) + rng.choice([b"D", b"Z", b"K", b"q"]) + body + b"\0")]
+        if kind == "oversizedjunk":  # a long run without any NUL, then a NUL, for numbers not in flight
+            n = rng.choice([10000, 10001, 40000])
+            d = rng.choice(free or [255])
+            return [(chan, bytes([d]) + bytes(rng.choice(b"KDZ\n<>:@") for _ in range(n)) + b"\0")]
+        if kind == "split":          # a report cut in two writes (the second part comes with the next hostile/answer step)
+            if not used[chan]:
+                return []
+            d = rng.choice(used[chan])
+            whole = bytes([d]) + text + b"\0"
+            cut = rng.randint(1, len(whole) - 1)
+            return [(chan, whole[:cut]), (other, bytes([255]) + b"K\0"), (chan, whole[cut:])]
+        if kind == "nuls":           # NUL bytes only: <0><NUL> frames, i.e. mangled reports for delivery number 0
+            return [(chan, b"\0" * rng.choice([1, 2, 3, 4, 7]))]
+        if kind == "burst":          # several frames in one write: good, bad, good
+            fr = []
+            for d in used[chan][:2]:
+                fr.append(bytes([255]) + b"K\0")
+                fr.append(bytes([d]) + text + b"\0")
+                fr.append(bytes([d]) + b"Kagain\0")          # the same number once more: now unused
+            return [(chan, b"".join(fr))] if fr else []
+        # random bytes
+        n = rng.choice([1, 2, 5, 17, 300, 2047, 2048, 2049, 5000])
+        alpha = bytes(range(256)) if rng.random() < 0.5 else b"\0\0KDZ\x01\x02\x03\xff\n"
+        return [(chan, bytes(rng.choice(alpha) for _ in range(n)))]
+
     def drain_inflight(self):
         """strict histories: the clock moves only when nothing is in flight (timing clauses decidable from outside)"""
         for _ in range(200):
@@ -268,6 +327,12 @@ class Runner:
                 elif op == "rawreport":
                     ctl.report(act[1], 0, act[2], raw=True)
                     self.after_step()
+                elif op == "hostile":
+                    # arbitrary bytes on a report channel, built with knowledge of what is in flight (C18 part 3)
+                    for chan, data in self.hostile_bytes(act[1]):
+                        for i in range(0, len(data), 30000):        # stay below the pipe capacity; the daemon drains in between
+                            ctl.report(chan, 0, data[i:i + 30000], raw=True)
+                            self.after_step()
             # drain: everything still pending is answered with success; the clock is moved to each deadline
             rounds = 0
             while rounds < h.get("drain_rounds", 40):
